@@ -25,9 +25,15 @@
 EXTENDS CFG
 
 Names == Vars \cup {"LS", "LL"}
+ASSUME Vars = {"x", "y"}        \* MkScope below spells the names out
 Absent == [present |-> FALSE, nodes |-> << >>]
 Entry(nodes) == [present |-> TRUE, nodes |-> nodes]
-EmptyScope == [n \in Names |-> Absent]
+\* A scope dict, built EAGERLY as a record over the four names.  (TLC represents [n \in Names |-> e] as a lazy
+\* function whose body is re-evaluated at every application; scopes are built on top of scopes, so lazy scope dicts
+\* make a lookup cost exponential in the nesting of combine_subscopes calls.)
+MkScope(F(_)) == [x |-> F("x"), y |-> F("y"), LS |-> F("LS"), LL |-> F("LL")]
+
+EmptyScope == MkScope(LAMBDA n : Absent)
 
 \* ---- list helpers ------------------------------------------------------------
 RECURSIVE Uniq(_, _)
@@ -81,10 +87,10 @@ ToLoops(scopes) == SelectSeq(scopes, LAMBDA sc : HasLL(sc))
 CombinedScope(scopes, ignoreLS) ==
     LET inc == Included(scopes, ignoreLS)
     IN IF inc = << >> THEN [EmptyScope EXCEPT !["LS"] = Entry(<< >>)]
-       ELSE [n \in Names |->
+       ELSE MkScope(LAMBDA n :
                IF \E i \in 1..Len(inc) : inc[i][n].present
                THEN Entry(Uniq(ConcatAll([i \in 1..Len(inc) |-> IF inc[i][n].present THEN inc[i][n].nodes ELSE <<0>>]), << >>))
-               ELSE Absent]
+               ELSE Absent)
 
 PushToLoops(loops, scs) ==
     IF scs = << >> THEN loops
@@ -92,7 +98,7 @@ PushToLoops(loops, scs) ==
 
 Combine(S, scopes, ignoreLS) ==
     LET comb == CombinedScope(scopes, ignoreLS)
-    IN [S EXCEPT !.cur = [n \in Names |-> IF comb[n].present THEN comb[n] ELSE S.cur[n]],
+    IN [S EXCEPT !.cur = MkScope(LAMBDA n : IF comb[n].present THEN comb[n] ELSE S.cur[n]),
                  !.loops = PushToLoops(S.loops, ToLoops(scopes))]
 
 StripLL(sc) == [sc EXCEPT !["LL"] = Absent]
@@ -112,16 +118,16 @@ InSub(block, S) ==
 \* of running something in a fresh subscope of S0 (st.cur already restored to S0.cur)
 Suppress(S0, inner) ==
     LET S1 == inner.st
-        rest == [n \in Names |->
+        rest == MkScope(LAMBDA n :
                     IF n = "LS" THEN Absent
                     ELSE LET d == S1.all[n] \ S0.all[n]
-                         IN IF d = {} THEN Absent ELSE Entry(SetToSortedSeq(d))]
+                         IN IF d = {} THEN Absent ELSE Entry(SetToSortedSeq(d)))
         dummy == SubCopy(S1.cur)
-        newscope == [n \in Names |->
+        newscope == MkScope(LAMBDA n :
                         IF rest[n].present \/ dummy[n].present
                         THEN Entry((IF dummy[n].present THEN dummy[n].nodes ELSE << >>)
                                    \o (IF rest[n].present THEN rest[n].nodes ELSE << >>))
-                        ELSE Absent]
+                        ELSE Absent)
     IN Combine(S1, <<dummy, newscope>>, FALSE)
 
 \* visit_try_except (name_check_visitor.py:4402); returns the state after the statement
@@ -204,7 +210,7 @@ Visit(block, S) == IF block = << >> THEN S ELSE Visit(Tail(block), VisitStmt(Hea
 
 \* ---- a whole function body ------------------------------------------------------
 MaxId == 12
-S0 == [cur |-> EmptyScope, usage |-> [u \in 1..MaxId |-> Absent], all |-> [n \in Names |-> {}], loops |-> << << >> >>,
+S0 == [cur |-> EmptyScope, usage |-> [u \in 1..MaxId |-> Absent], all |-> [x |-> {}, y |-> {}, LS |-> {}, LL |-> {}], loops |-> << << >> >>,
        phase |-> "collect", mod |-> [v \in Vars |-> {}]]
 
 RECURSIVE HasKind(_, _)
